@@ -184,9 +184,9 @@ SEq(T)       == SetOp /\ Obs(A("eq", T, S = T, ""))
 SNe(T)       == SetOp /\ Obs(A("ne", T, S # T, ""))
 
 (* ---- the result of a set-valued call is a NEW set ---- *)
-\* copy(), the zero-operand union() / intersection() / difference(), and the one-operand calls with the empty
-\* set and with the receiver's own contents all return a set R that is a second object: changing R leaves S
-\* alone (SMutR), changing S leaves R alone (SMutS).  Both probes end the behaviour.
+\* copy(), the zero-operand union() / intersection() / difference(), and the one-operand calls (with every
+\* operand, the empty set and the receiver's own contents among them) all return a set R that is a second
+\* object: changing R leaves S alone (SMutR), changing S leaves R alone (SMutS).  Both probes end the behaviour.
 ZeroOps == {"copy", "union0", "intersection0", "difference0"}
 OneOps  == {"union", "intersection", "difference", "symmetric_difference"}
 Derived(op, T) == CASE op \in ZeroOps -> S
@@ -194,13 +194,13 @@ Derived(op, T) == CASE op \in ZeroOps -> S
                     [] op = "intersection" -> Inter(S, T)
                     [] op = "difference" -> Diff(S, T)
                     [] op = "symmetric_difference" -> SymDiff(S, T)
-DeriveChoices == {<<op, {}>> : op \in ZeroOps} \cup {<<op, T>> : op \in OneOps, T \in {{}, S}}
+DeriveChoices == {<<op, {}>> : op \in ZeroOps} \cup {<<op, T>> : op \in OneOps, T \in Operands \cup {{}, S}}
 SDerive == SetOp /\ ObsEnabled /\ \E c \in DeriveChoices :
               /\ UNCHANGED <<S, M>> /\ R' = <<Derived(c[1], c[2])>>
               /\ act' = A("derive", c, Derived(c[1], c[2]), "")
               /\ steps' = (IF Interleave THEN steps + 1 ELSE steps) /\ done' = FALSE
 
-Probes == {<<"add", 1>>, <<"clear", 0>>, <<"pop", 0>>}          \* one of them always changes the contents
+Probes == {<<"add", e>> : e \in Elems} \cup {<<"clear", 0>>, <<"pop", 0>>}     \* some of them always change the contents
 Apply(X, m) == CASE m[1] = "add" -> X \cup {m[2]}
                  [] m[1] = "clear" -> {}
                  [] m[1] = "pop" -> IF X = {} THEN X ELSE X \ {Max(X)}
